@@ -3,7 +3,8 @@ from copy import deepcopy
 from fractions import Fraction
 from xml.sax.saxutils import escape, quoteattr
 
-from bs4 import BeautifulSoup, NavigableString
+from bs4 import BeautifulSoup, CData, NavigableString
+from bs4.element import PreformattedString
 from bs4.formatter import XMLFormatter
 
 from ..base import (
@@ -231,6 +232,10 @@ class DFXPReader(BaseReader):
         return int(microseconds)
 
     def _convert_tag_to_node(self, tag):
+        # comments, processing instructions and declarations are markup, not
+        # character data of the caption
+        if isinstance(tag, PreformattedString) and not isinstance(tag, CData):
+            return
         # convert text
         if isinstance(tag, NavigableString):
             # strips indentation whitespace only
